@@ -400,3 +400,122 @@ def run_watchdog(code: str, timeout: float, env: dict | None = None, cwd: str | 
 
 def exc_name(e: BaseException) -> str:
     return "raises:" + type(e).__name__
+
+
+# ----------------------------------------------------------------------------------------------
+# Watchdog-guarded evaluation of the real code (a hang must become a result, not a hung check)
+# ----------------------------------------------------------------------------------------------
+def _guard_child(fn, items, start, conn):
+    try:
+        # the analysed code prints diagnostics to stderr (e.g. failed type probes); keep the check's output clean
+        devnull = os.open(os.devnull, os.O_WRONLY)
+        os.dup2(devnull, 2)
+        for k in range(start, len(items)):
+            try:
+                r = fn(items[k])
+            except BaseException as e:  # noqa
+                r = {"error": exc_name(e)}
+            conn.send((k, r))
+        conn.send((None, None))
+    except BaseException:  # noqa
+        pass
+
+
+def guarded_map(fn, items, per_item_timeout: float = 5.0, nproc: int = NCPU, max_timeouts: int = 4):
+    """Map `fn` over `items` in child processes; an item that does not finish within the timeout yields {"timeout": True}.
+    After `max_timeouts` timeouts the remaining items are skipped ({"skipped": True}): a few hanging inputs are a finding,
+    thousands of them must not stall the check."""
+    import multiprocessing as mp
+    import threading
+
+    n_timeouts = [0]
+    tlock = threading.Lock()
+
+    ctx = mp.get_context("fork")
+    n = len(items)
+    res = [None] * n
+    if n == 0:
+        return res
+    nproc = max(1, min(nproc, (n + 31) // 32))
+    shards = [list(range(i, n, nproc)) for i in range(nproc)]
+
+    def run_shard(idxs):
+        sub = [items[i] for i in idxs]
+        start = 0
+        while start < len(sub):
+            if n_timeouts[0] >= max_timeouts:
+                for k in range(start, len(sub)):
+                    res[idxs[k]] = {"skipped": True}
+                break
+            parent, child = ctx.Pipe(duplex=False)
+            p = ctx.Process(target=_guard_child, args=(fn, sub, start, child), daemon=True)
+            p.start()
+            child.close()
+            done = False
+            while True:
+                if parent.poll(per_item_timeout):
+                    try:
+                        k, r = parent.recv()
+                    except EOFError:
+                        # child died (crash): mark current item
+                        res[idxs[start]] = {"error": "raises:ChildCrashed"}
+                        start += 1
+                        break
+                    if k is None:
+                        done = True
+                        break
+                    res[idxs[k]] = r
+                    start = k + 1
+                else:
+                    res[idxs[start]] = {"timeout": True}
+                    with tlock:
+                        n_timeouts[0] += 1
+                    start += 1
+                    break
+            p.kill()
+            p.join()
+            parent.close()
+            if done:
+                break
+
+    with cf.ThreadPoolExecutor(nproc) as ex:
+        list(ex.map(run_shard, shards))
+    return res
+
+
+class LineCounter:
+    """sys.settrace-based counter of 'line' events for chosen (filename suffix, line) pairs; optional capture of locals."""
+
+    def __init__(self, targets: dict, capture: dict | None = None):
+        # targets: {(file_suffix, lineno): key}; capture: {(file_suffix, lineno): local variable name}
+        self.targets, self.capture = targets, capture or {}
+        self.files = {f for f, _ in targets}
+        self.counts = {k: 0 for k in targets.values()}
+        self.captured = {}
+
+    def _local(self, frame, event, arg):
+        if event == "line":
+            fn = frame.f_code.co_filename
+            for suf in self.files:
+                if fn.endswith(suf):
+                    key = self.targets.get((suf, frame.f_lineno))
+                    if key is not None:
+                        self.counts[key] += 1
+                        cap = self.capture.get((suf, frame.f_lineno))
+                        if cap is not None and key not in self.captured:
+                            self.captured[key] = frame.f_locals.get(cap)
+        return self._local
+
+    def _global(self, frame, event, arg):
+        fn = frame.f_code.co_filename
+        for suf in self.files:
+            if fn.endswith(suf):
+                return self._local
+        return None
+
+    def __enter__(self):
+        sys.settrace(self._global)
+        return self
+
+    def __exit__(self, *a):
+        sys.settrace(None)
